@@ -72,6 +72,9 @@ let log_s (calls : (z * z) list) =
   let l = List.rev calls in
   join (("log" :: [ string_of_int (List.length l) ]) @ List.concat (List.map (fun (i, a) -> [ str_of_z i; str_of_z a ]) l))
 
+(* one constructed element: c<how>:<hops>:<source moved from> / alias; the model performs exactly one construction *)
+let built_s = function Constructed moved -> if moved then "c2:1:1" else "c1:1:0" | Aliased -> "alias"
+
 let lerr_s = function UseDead -> "use-dead" | OverLive -> "over-live" | TypeConfusion -> "type-confusion" | Leak -> "leak"
 
 let run_case op t =
@@ -207,6 +210,34 @@ let run_case op t =
             join [ "ok"; "3"; "4"; h; h; f; f ]
         | None -> "ill" in
       (pr (pair_assign_m dk sk s), pr (pair_assign_spec dk sk s))
+  | "pctor" ->
+      let k = kind_of_code (next_int t) in
+      let a = cat_of_code (next_int t) in
+      let pr = function Some b -> join [ "ok"; built_s b; "7" ] | None -> "ill" in
+      (pr (pair_ctor_m k a), pr (init_spec k a))
+  | "pconv" ->
+      let dk = kind_of_code (next_int t) in
+      let sk = kind_of_code (next_int t) in
+      let sc = cat_of_code (next_int t) in
+      let pr = function Some b -> join [ "ok"; built_s b; "1" ] | None -> "ill" in
+      (pr (pair_conv_ctor_m dk sk sc), pr (pair_conv_spec dk sk sc))
+  | "tctor" ->
+      let spec = next_intlist t in
+      let rec split = function k :: a :: r -> let ks, cs = split r in (kind_of_code k :: ks, cat_of_code a :: cs) | _ -> ([], []) in
+      let ks, cs = split spec in
+      let pr = function
+        | Some l -> join ([ "ok"; string_of_int (List.length l) ] @ List.map built_s l)
+        | None -> "ill" in
+      (pr (tuple_ctor_all_m ks cs), pr (tuple_ctor_all_spec ks cs))
+  | "mk" ->
+      let which = next_int t in
+      let a = cat_of_code (next_int t) in
+      let value_kind = { cst = false; rf = RNone } in
+      let prv = function Some b -> join [ "ok"; string_of_int (code_of_kind value_kind); built_s b ] | None -> "ill" in
+      let prf = function Some (k, b) -> join [ "ok"; string_of_int (code_of_kind k); built_s b ] | None -> "ill" in
+      if which = 0 then (prv (make_pair_transfer_m a), prv (make_value_spec a))
+      else if which = 1 then (prv (make_tuple_transfer_m a), prv (make_value_spec a))
+      else (prf (forward_as_tuple_m a), prf (forward_as_tuple_spec a))
   | "prel" ->
       let a1 = next_z t in let a2 = next_z t in let b1 = next_z t in let b2 = next_z t in
       let p = (a1, a2) and q = (b1, b2) in
